@@ -161,6 +161,22 @@ func c03Templates() []c03Template {
 			pl, _ := json.Marshal(evmtypes.JobPayload{HexPayload: "0xdeadbeef"})
 			return &schedtypes.MsgCreateJob{Metadata: md, Job: &schedtypes.Job{ID: "forgedjob", Routing: schedtypes.Routing{ChainType: "evm", ChainReferenceID: c03Chain}, Definition: def, Payload: pl}}
 		}},
+		// creating a job under (a spelling of) the id of the victim's existing job must never touch that job
+		{name: "scheduler.MsgCreateJob", group: "scheduler", victim: vicUser, build: func(e *c03Env, id map[string]sdk.AccAddress, md vtypes.MsgMetadata) sdk.Msg {
+			def, _ := json.Marshal(evmtypes.JobDefinition{ABI: "[]", Address: "0x00000000000000000000000000000000000000ab"})
+			pl, _ := json.Marshal(evmtypes.JobPayload{HexPayload: "0xfeedface"})
+			return &schedtypes.MsgCreateJob{Metadata: md, Job: &schedtypes.Job{ID: e.jobID, Routing: schedtypes.Routing{ChainType: "evm", ChainReferenceID: c03Chain}, Definition: def, Payload: pl}}
+		}},
+		{name: "scheduler.MsgCreateJob", group: "scheduler", victim: vicUser, build: func(e *c03Env, id map[string]sdk.AccAddress, md vtypes.MsgMetadata) sdk.Msg {
+			def, _ := json.Marshal(evmtypes.JobDefinition{ABI: "[]", Address: "0x00000000000000000000000000000000000000ab"})
+			pl, _ := json.Marshal(evmtypes.JobPayload{HexPayload: "0xfeedface"})
+			return &schedtypes.MsgCreateJob{Metadata: md, Job: &schedtypes.Job{ID: strings.ToUpper(e.jobID[:1]) + e.jobID[1:], Routing: schedtypes.Routing{ChainType: "evm", ChainReferenceID: c03Chain}, Definition: def, Payload: pl}}
+		}},
+		{name: "scheduler.MsgCreateJob", group: "scheduler", victim: vicUser, build: func(e *c03Env, id map[string]sdk.AccAddress, md vtypes.MsgMetadata) sdk.Msg {
+			def, _ := json.Marshal(evmtypes.JobDefinition{ABI: "[]", Address: "0x00000000000000000000000000000000000000ab"})
+			pl, _ := json.Marshal(evmtypes.JobPayload{HexPayload: "0xfeedface"})
+			return &schedtypes.MsgCreateJob{Metadata: md, Job: &schedtypes.Job{ID: " " + e.jobID + " ", Routing: schedtypes.Routing{ChainType: "evm", ChainReferenceID: c03Chain}, Definition: def, Payload: pl}}
+		}},
 		{name: "scheduler.MsgExecuteJob", group: "scheduler", victim: vicUser, build: func(e *c03Env, id map[string]sdk.AccAddress, md vtypes.MsgMetadata) sdk.Msg {
 			return &schedtypes.MsgExecuteJob{Metadata: md, JobID: e.jobID}
 		}},
